@@ -283,11 +283,11 @@ def cases(tier):
         add("case_saturation_breaking", f"satbreak_nd3_k{k}", nd=3, k=k, opts=dict(weight=80))
     add("case_saturation_breaking", "satbreak_nd3_mirror", nd=3, k=0, mirror=True, opts=dict(weight=80))
     for k in (1, 2):
-        add("case_cumulative", f"cum_nd4_k{k}", nd=4, k=k, opts=dict(weight=100, case_timeout_s=280 if q else 1500))
+        add("case_cumulative", f"cum_nd4_k{k}", nd=4, k=k, opts=dict(weight=100, case_timeout_s=900 if q else 1500))
     for nd, k in ((4, 1), (8, 3), (12, 5)):
         add("case_cumulative_witness", f"cumwit_nd{nd}_k{k}", nd=nd, k=k, opts=dict(fold_sqrt=True, trig_mode="float"))
     add("case_cumulative_witness", "cumwit_nd8_mirror", nd=8, k=0, mirror=True, opts=dict(fold_sqrt=True, trig_mode="float"))
     for nd, k in ((16, 3), (24, 5), (36, 7)):
         add("case_float_rotation", f"float_rot_nd{nd}_k{k}", nd=nd, k=k, opts=dict(concrete_float=True, label="D-ROT.float"))
-    add("case_cumulative", "cum_nd4_mirror", nd=4, k=0, mirror=True, opts=dict(weight=100, case_timeout_s=280 if q else 1500))
+    add("case_cumulative", "cum_nd4_mirror", nd=4, k=0, mirror=True, opts=dict(weight=100, case_timeout_s=900 if q else 1500))
     return cs
